@@ -95,3 +95,49 @@ def _v23(repo, mod):
     fn = repo.func(EX, "TestSuiteWriter.write")
     s = find_stmt(fn, lambda s: isinstance(s, ast.Expr) and norm(s.value) == "used_exc_types.update(func_used_exc_types)")
     return replace_node(mod, s, "used_exc_types |= func_used_exc_types")
+
+
+@variant("C18", "enum-classes-of-dict-keys-not-collected", EX, "C18.enum-import", "the collector looks at dict values only")
+def _v30(repo, mod):
+    fn = repo.func(EX, "_enum_types_of")
+    n = find_node(fn, lambda n: isinstance(n, ast.Call) and norm(n) == "value.items()")
+    return replace_node(mod, n, "[(None, item) for item in value.values()]")
+
+
+@variant("C18", "enum-classes-only-of-bare-members", EX, "C18.enum-import", "members nested in containers are not collected")
+def _v31(repo, mod):
+    fn = repo.func(EX, "_enum_types_of")
+    s = find_stmt(fn, lambda s: isinstance(s, ast.If) and "list" in norm(s.test))
+    return replace_node(mod, s.test, "False")
+
+
+@variant("C18", "enum-classes-not-fed-to-imports", EX, "C18.enum-import", "collected, but the import loop was dropped")
+def _v32(repo, mod):
+    fn = repo.func(EX, "TestSuiteWriter.write")
+    lp = find_stmt(fn, lambda s: isinstance(s, ast.For) and norm(s.iter) == "used_enum_types")
+    return replace_node(mod, lp.iter, "()")
+
+
+@variant("C18", "enum-classes-of-first-assertion-only", EX, "C18.enum-import", "only statements with a bound variable are scanned")
+def _v33(repo, mod):
+    fn = repo.func(EX, "TestSuiteWriter.write")
+    c = find_node(fn, lambda n: isinstance(n, ast.Call) and norm(n.func) == "_enum_types_of")
+    st = c
+    from sa.engine.index import parent
+    while not isinstance(st, ast.Expr):
+        st = parent(st)
+    from sa.selftest.harness import node_text
+    return replace_node(mod, st, "if stmt.bound_variable is not None:\n                        " + node_text(mod, st).replace("\n", "\n    "))
+
+
+@variant("C18", "private-enum-classes-skipped", EX, "C18.enum-import", "names starting with an underscore are not imported")
+def _v34(repo, mod):
+    fn = repo.func(EX, "TestSuiteWriter.write")
+    lp = find_stmt(fn, lambda s: isinstance(s, ast.For) and norm(s.iter) == "used_enum_types")
+    cond = find_node(lp, lambda n: isinstance(n, ast.BoolOp))
+    return replace_node(mod, cond.values[0], 'isinstance(bound, type) and not enum_type.__name__.startswith("_")')
+
+
+@variant("C18", "twin-collector-renamed", EX, None, "renaming the collector and its accumulator stays silent")
+def _v35(repo, mod):
+    return mod.source.replace("_enum_types_of", "_enum_classes_in").replace("used_enum_types", "enum_classes")
